@@ -95,7 +95,7 @@ pub fn managed_race(prop: &'static str, seed: u64, close: bool) -> RaceOut {
         hs.push(std::thread::spawn(move || -> Result<(), String> {
             let mut held = Vec::new();
             for i in 0..iters {
-                if stop.load(Ordering::Relaxed) && i % 8 == 0 {
+                if !few && stop.load(Ordering::Relaxed) && i % 8 == 0 {
                     break;
                 }
                 let _ = cnt2.entered.fetch_add(1, Ordering::SeqCst);
@@ -164,7 +164,9 @@ pub fn managed_race(prop: &'static str, seed: u64, close: bool) -> RaceOut {
             spin(rng.below(400));
         }
     }
-    stop.store(true, Ordering::SeqCst);
+    if !few {
+        stop.store(true, Ordering::SeqCst);
+    }
     for h in hs {
         match h.join() {
             Ok(Ok(())) => {}
@@ -172,6 +174,7 @@ pub fn managed_race(prop: &'static str, seed: u64, close: bool) -> RaceOut {
             Err(_) => viol.push(Violation { prop, oracle: "race_thread_died", msg: "a worker thread died".into() }),
         }
     }
+    stop.store(true, Ordering::SeqCst);
     let mut samples = 0;
     match sampler.join() {
         Ok((n, None)) => samples = n,
